@@ -31,6 +31,10 @@ func vfPut64(p uintptr, v uint64) { *(*uint64)(unsafe.Pointer(p)) = v }
 // ne entries (address, length, type symbolic; sorted, non-overlapping, below
 // 2^52, at most maxFrames frames plus unaligned slack each) in a raw region and
 // places the kernel image page-aligned inside one available entry.
+// vfMenu: when set, the map is drawn from small menus of concrete layouts instead of being symbolic (two adjacent or
+// nearby available entries whose frame counts are and are not multiples of 64, kernel at the start of either).
+var vfMenu bool
+
 func vfBuildMemMap(ne int, maxFrames uint64) *vfMemMap {
 	m := &vfMemMap{ne: ne}
 	size := uintptr(8 + 16 + 24*ne + 8)
@@ -44,9 +48,18 @@ func vfBuildMemMap(ne int, maxFrames uint64) *vfMemMap {
 	vfPut32(base+20, 0)
 	prevEnd := uint64(0)
 	for i := 0; i < ne; i++ {
-		m.addr[i] = zzverif.U64("addr")
-		m.length[i] = zzverif.U64("len")
-		m.typ[i] = zzverif.U32("type")
+		if vfMenu {
+			frames := [4]uint64{40, 64, 65, 100}[zzverif.Choice("frames", 4)]
+			gap := [2]uint64{0, 0x3000}[zzverif.Choice("gap", 2)]
+			m.addr[i], m.length[i], m.typ[i] = prevEnd+gap+0x1000*uint64(1-i), frames<<12, 1
+			if i == 1 {
+				m.addr[i] = prevEnd + gap
+			}
+		} else {
+			m.addr[i] = zzverif.U64("addr")
+			m.length[i] = zzverif.U64("len")
+			m.typ[i] = zzverif.U32("type")
+		}
 		zzverif.Assume(m.addr[i] < vfMaxFrame<<12)
 		zzverif.Assume(m.length[i] <= maxFrames*4096+4095)
 		zzverif.Assume(m.addr[i] >= prevEnd)
@@ -65,6 +78,10 @@ func vfBuildMemMap(ne int, maxFrames uint64) *vfMemMap {
 	// kernel image: page-aligned start, 1 byte .. 3 pages, inside one available entry
 	m.kstart = zzverif.U64("kstart")
 	ksize := zzverif.U64("ksize")
+	if vfMenu {
+		m.kstart = m.addr[zzverif.Choice("kernel-entry", ne)]
+		ksize = [2]uint64{0x1000, 0x2800}[zzverif.Choice("kernel-size", 2)]
+	}
 	zzverif.Assume(m.kstart&4095 == 0)
 	zzverif.Assume(m.kstart < vfMaxFrame<<12)
 	zzverif.Assume(zzverif.And(ksize >= 1, ksize <= 3*4096))
